@@ -13,6 +13,7 @@ import Kingdon.Model.Graph
 import Kingdon.Model.Api
 import Kingdon.Model.Composite
 import Kingdon.Model.Hitzer
+import Kingdon.Model.Matrix
 open Kingdon
 
 def hexDigit? (ch : Char) : Option Nat :=
@@ -251,6 +252,14 @@ def step (line : String) : String :=
     | some c, some gs, some kx => renderMV (gradeSel c gs (symMV 0 kx))
     | _, _, _ => "bad-op"
   | "kpoly" :: prog => KP.runProgram prog
+  | ["wedgepowers", cs, kx] =>
+    match parseCfg cs, parseNatList kx with
+    | some c, some kx => String.intercalate "|" ((wedgePowers c Poly.isZero (symMV 0 kx)).map renderMV)
+    | _, _ => "bad-op"
+  | ["matrix", cs] =>
+    match parseCfg cs with
+    | some c => String.intercalate ";" ((Mx.dMatrixBasis c).map (Mx.renderD (2 ^ c.d)))
+    | none => "bad-op"
   | ["hitzer", cs, kx] =>
     match parseCfg cs, parseNatList kx with
     | some c, some kx =>
